@@ -295,10 +295,12 @@ def between (F : Fn K) (a b p : V3 K) : Bool :=
   let slack := F.eps * dot n n
   decide (-slack ≤ dot (cross a p) n) && decide (-slack ≤ dot (cross p b) n)
 
-/-- `p` is on the great circle of `a,b` and between them -/
+/-- `point_within_gca(p, [a, b])` (undirected): the sine of the angle between `p` and the plane of the
+    arc is at most `ERROR_TOLERANCE`, and `p` is behind neither end point (exact `≥ 0` tests) -/
 def onGca (F : Fn K) (a b p : V3 K) : Bool :=
   let n := cross a b
-  decide (F.abs (dot n p) ≤ F.eps * F.sqrt (dot n n)) && between F a b p
+  decide (F.abs (dot n p) ≤ F.tol * F.sqrt (dot n n) * F.sqrt (dot p p)) &&
+  decide (0 ≤ dot (cross a p) n) && decide (0 ≤ dot (cross p b) n)
 
 /-- `gca_gca_intersection(ref, edge)` -/
 def arcMeet (F : Fn K) (w0 w1 v0 v1 : V3 K) : List (V3 K) :=
